@@ -205,7 +205,7 @@ def tame(sc):
     return sc
 
 
-def run_recorded(chk, prop, scen, tag="rec", chunk=150):
+def run_recorded(chk, prop, scen, tag="rec", chunk=150, subscriber=False):
     """Run scenarios in the real code and validate their traces against QueueTrace.tla."""
     scen = [tame(s) for s in scen]
     counting = [s for s in scen if s.get("count_only")]
@@ -220,7 +220,8 @@ def run_recorded(chk, prop, scen, tag="rec", chunk=150):
         tp = os.path.join(chk.dir, f"{tag}-{c0}-trace.ndjson")
         mp = os.path.join(chk.dir, f"{tag}-{c0}-meta.ndjson")
         vlib.write_ndjson(sp, part)
-        vlib.run_bin("bq", ["run", "--scenarios", sp, "--out", tp, "--meta", mp], timeout=3600)
+        vlib.run_bin("bq", ["run", "--scenarios", sp, "--out", tp, "--meta", mp] + (["--subscriber", "1"] if subscriber else []),
+                     timeout=3600)
 
         def on_reject(meta, v, lines):
             what = (f"recorded execution of scenario {meta['id']} is not a behaviour of {'QueueAbs' if tspec == 'QueueTrace' else tspec}: "
@@ -466,6 +467,16 @@ def run(prop, tier):
         s["id"] = i + 1
         s.setdefault("seed", chk.seed * 100000 + i)
     run_recorded(chk, prop, scen)
+    if prop == "C01":
+        # the same queue in a process with a tracing subscriber installed: validation failures must
+        # then NOT produce the in-band report entry (Report is not enabled when sub = 1)
+        sub = gen_c01(rng, 8 if q else 80)
+        for i, s in enumerate(sub):
+            s["id"] = 5000 + i
+            s["seed"] = chk.seed * 100000 + 5000 + i
+            prods = s["producers"]
+            s["results"] = _results(rng, prods, 0.4, 0.1)
+        run_recorded(chk, prop, sub, tag="sub", subscriber=True)
     # 3. TLC schedules replayed into the real code
     run_scheduled(chk, prop, tier)
     # 4. the waker protocol, stepped through the real WakerTracker
